@@ -734,7 +734,7 @@ pub fn spec() -> PropertySpec {
         rule: "HttpConn methods called directly on a connection whose stream is the simulated TcpStream. Enumerated stage: EVERY program of depth <= 3 (quick) / <= 4 (thorough) over 15 operations {read_request, read_body_to_vec, read_body_to_file(max in {0, len-1, len, 2^40, u64::MAX}), write_http_continue, write_response(102 | 200 | 404 | 500 | non-writable kind | conflicting header), shutdown_write} x 13 client scripts {nothing+FIN, bodiless, small known body, known body + pipelined request, Expect+body, unknown-length, chunked, truncated body, garbage, gzip, body larger than the 8 KiB buffer, Expect+unknown length, three pipelined}, client pre-written + FIN. Sampled stage: programs of depth 1-7 with interleaved delivery (short reads, spurious Pending, bytes fed only when a call waits) and clients that withhold the body until they see 100 Continue. Oracle: explicit-state reference model (read state x write state x stream cursor) predicting result, states, is_ready(), write-side shutdown and the bytes on the wire after every call; misuse must leave the wire unchanged. distinct = (script, program, delivery mode).",
         scenarios: vec![
             Scenario { name: "c05.enumerated", property: "C05", func: enumerated, runs_quick: n3, runs_thorough: n4, doc: "all programs up to the depth bound" },
-            Scenario { name: "c05.sampled", property: "C05", func: sampled, runs_quick: 150_000, runs_thorough: 5_000_000, doc: "deeper programs, interleaved delivery" },
+            Scenario { name: "c05.sampled", property: "C05", func: sampled, runs_quick: 1_000_000, runs_thorough: 20_000_000, doc: "deeper programs, interleaved delivery" },
         ],
         required_probes: vec!["probe.interleaved_delivery", "probe.client_waits_for_100", "probe.free_cell"],
         components: components_server(),
